@@ -492,10 +492,12 @@ fn pretty_print_rustfmt(tokens: TokenStream) -> String {
         .spawn()
     {
         let stdin = proc.stdin.as_mut().unwrap();
-        stdin.write_all(value.as_bytes()).unwrap();
+        // rustfmt may exit or be killed before reading all of its input.
+        // Treat a failed write like a failed format instead of panicking.
+        let written = stdin.write_all(value.as_bytes()).is_ok();
 
         let output = proc.wait_with_output().unwrap();
-        if output.status.success() {
+        if written && output.status.success() {
             return String::from_utf8(output.stdout).unwrap();
         }
     }
